@@ -26,34 +26,46 @@ pub struct Annotations {
 
 impl Annotations {
     pub fn new(annotations: &[&str], n_fri_layers: usize) -> anyhow::Result<Annotations> {
+        let n_proof_bytes = extract::check_prover_messages(annotations)?;
         let ZAlpha { z, alpha } = ZAlpha::extract(annotations)?;
-        Ok(Annotations {
+        // The single-valued messages: exactly one of each.
+        let single = |annotation: Annotation, name: &str| -> anyhow::Result<BigUint> {
+            match annotation.extract(annotations)?.as_slice() {
+                [value] => Ok(value.clone()),
+                values => anyhow::bail!("{} {name} in annotations!", values.len()),
+            }
+        };
+        let res = Annotations {
             z,
             alpha,
-            original_commitment_hash: Annotation::OriginalCommitmentHash
-                .extract(annotations)?
-                .first()
-                .ok_or(anyhow::anyhow!("No OriginalCommitmentHash in annotations!"))?
-                .clone(),
-            interaction_commitment_hash: Annotation::InteractionCommitmentHash
-                .extract(annotations)?
-                .first()
-                .ok_or(anyhow::anyhow!("No InteractionCommitmentHash in annotations!"))?
-                .clone(),
-            composition_commitment_hash: Annotation::CompositionCommitmentHash
-                .extract(annotations)?
-                .first()
-                .ok_or(anyhow::anyhow!("No CompositionCommitmentHash in annotations!"))?
-                .clone(),
+            original_commitment_hash: single(
+                Annotation::OriginalCommitmentHash,
+                "OriginalCommitmentHash",
+            )?,
+            interaction_commitment_hash: single(
+                Annotation::InteractionCommitmentHash,
+                "InteractionCommitmentHash",
+            )?,
+            composition_commitment_hash: single(
+                Annotation::CompositionCommitmentHash,
+                "CompositionCommitmentHash",
+            )?,
             oods_values: Annotation::OodsValues.extract(annotations)?,
-            fri_layers_commitments: Annotation::FriLayersCommitments.extract(annotations)?,
+            // One commitment per inner layer, taken by its layer number.
+            fri_layers_commitments: (1..n_fri_layers)
+                .map(|layer| {
+                    let prefix = format!("STARK/FRI/Commitment/Layer {layer}");
+                    match extract::extract_annotations(annotations, &prefix, "Hash")?.as_slice() {
+                        [value] => Ok(value.clone()),
+                        values => {
+                            anyhow::bail!("{} commitments of FRI layer {layer} in annotations!", values.len())
+                        }
+                    }
+                })
+                .collect::<anyhow::Result<Vec<_>>>()?,
             fri_last_layer_coefficients: Annotation::FriLastLayerCoefficients
                 .extract(annotations)?,
-            proof_of_work_nonce: Annotation::ProofOfWorkNonce
-                .extract(annotations)?
-                .first()
-                .ok_or(anyhow::anyhow!("No ProofOfWorkNonce in annotations!"))?
-                .clone(),
+            proof_of_work_nonce: single(Annotation::ProofOfWorkNonce, "ProofOfWorkNonce")?,
             original_witness_leaves: Annotation::OriginalWitnessLeaves.extract(annotations)?,
             original_witness_authentications: Annotation::OriginalWitnessAuthentications
                 .extract(annotations)?,
@@ -75,7 +87,33 @@ impl Annotations {
                     })
                 })
                 .collect::<anyhow::Result<Vec<_>>>()?,
-        })
+        };
+        anyhow::ensure!(
+            Annotation::FriLayersCommitments.extract(annotations)? == res.fri_layers_commitments,
+            "FRI layer commitments are not in layer order in annotations!"
+        );
+        // Every prover message must have been taken by exactly one of the extractions above: a message under
+        // an unknown path (or of a FRI layer that does not exist) would otherwise be dropped silently.
+        let n_values = 4
+            + res.oods_values.len()
+            + res.fri_layers_commitments.len()
+            + res.fri_last_layer_coefficients.len()
+            + res.original_witness_leaves.len()
+            + res.original_witness_authentications.len()
+            + res.interaction_witness_leaves.len()
+            + res.interaction_witness_authentications.len()
+            + res.composition_witness_leaves.len()
+            + res.composition_witness_authentications.len()
+            + res
+                .fri_witnesses
+                .iter()
+                .map(|w| w.leaves.len() + w.authentications.len())
+                .sum::<usize>();
+        anyhow::ensure!(
+            n_values.checked_mul(32) == Some(n_proof_bytes),
+            "{n_values} values extracted from annotations covering {n_proof_bytes} proof bytes"
+        );
+        Ok(res)
     }
 }
 
